@@ -4,7 +4,45 @@ import (
 	"reflect"
 )
 
+// NativeToObject converts a Go value to an Object. It returns nil for
+// a value that cannot be represented, including one that contains itself.
 func NativeToObject(val any) Object {
+	return nativeToObject(val, map[visit]bool{})
+}
+
+// visit identifies a pointer, map or slice that is being converted.
+// A value that is met again while it is still being converted
+// contains itself and can never be converted completely.
+type visit struct {
+	addr uintptr
+	typ  reflect.Type
+	size int
+}
+
+// enter marks the value as being converted, it returns false when it already is
+func enter(path map[visit]bool, v reflect.Value) (visit, bool) {
+	key := visit{addr: v.Pointer(), typ: v.Type()}
+
+	if v.Kind() == reflect.Slice {
+		// two slices can start at the same element, a slice is met again
+		// only when it also has the same length
+		key.size = v.Len()
+	}
+
+	if key.addr == 0 {
+		return key, true
+	}
+
+	if path[key] {
+		return key, false
+	}
+
+	path[key] = true
+
+	return key, true
+}
+
+func nativeToObject(val any, path map[visit]bool) Object {
 	switch v := val.(type) {
 	case string:
 		return &Str{Value: v}
@@ -42,11 +80,21 @@ func NativeToObject(val any) Object {
 
 	switch valType.Kind() {
 	case reflect.Struct:
-		return nativeStructToObject(val)
+		return nativeStructToObject(val, path)
+	case reflect.Slice, reflect.Map, reflect.Pointer:
+		key, ok := enter(path, reflect.ValueOf(val))
+		if !ok {
+			return nil
+		}
+
+		defer delete(path, key)
+	}
+
+	switch valType.Kind() {
 	case reflect.Slice:
-		return nativeSliceToArrayObject(convertToInterfaceSlice(val))
+		return nativeSliceToArrayObject(convertToInterfaceSlice(val), path)
 	case reflect.Map:
-		return nativeMapToObject(val)
+		return nativeMapToObject(val, path)
 	case reflect.Pointer:
 		ptr := reflect.ValueOf(val)
 
@@ -54,20 +102,20 @@ func NativeToObject(val any) Object {
 			return &Nil{}
 		}
 
-		// NativeToObject is used recursively to handle pointers
-		return NativeToObject(ptr.Elem().Interface())
+		// nativeToObject is used recursively to handle pointers
+		return nativeToObject(ptr.Elem().Interface(), path)
 	}
 
 	return nil
 }
 
-func nativeMapToObject(val any) Object {
+func nativeMapToObject(val any, path map[visit]bool) Object {
 	obj := &Obj{Pairs: make(map[string]Object)}
 
 	valValue := reflect.ValueOf(val)
 
 	for _, key := range valValue.MapKeys() {
-		elem := NativeToObject(valValue.MapIndex(key).Interface())
+		elem := nativeToObject(valValue.MapIndex(key).Interface(), path)
 
 		if elem == nil {
 			return nil
@@ -95,7 +143,7 @@ func convertToInterfaceSlice(slice any) []any {
 	return ret
 }
 
-func nativeStructToObject(val any) Object {
+func nativeStructToObject(val any, path map[visit]bool) Object {
 	obj := &Obj{Pairs: make(map[string]Object)}
 
 	valType := reflect.TypeOf(val)
@@ -109,7 +157,7 @@ func nativeStructToObject(val any) Object {
 
 		fieldVal := reflect.ValueOf(val).Field(i).Interface()
 
-		elem := NativeToObject(fieldVal)
+		elem := nativeToObject(fieldVal, path)
 
 		if elem == nil {
 			return nil
@@ -121,11 +169,11 @@ func nativeStructToObject(val any) Object {
 	return obj
 }
 
-func nativeSliceToArrayObject(slice []any) Object {
+func nativeSliceToArrayObject(slice []any, path map[visit]bool) Object {
 	arr := &Array{}
 
 	for _, val := range slice {
-		elem := NativeToObject(val)
+		elem := nativeToObject(val, path)
 
 		if elem == nil {
 			return nil
